@@ -36,6 +36,15 @@ var c19Files = []string{
 // uploads of the state alphabet: lists of file indices
 var c19Uploads = [][]int{{0}, {1}, {2}, {0, 1}, {1, 0}, {2, 3}, {4}, {3}, {5}}
 
+// c19FileName: files are called f<i>.txt, except that the second file of upload {1, 0} and the first of {2, 3} are
+// sent without a name (allowed by the client API): each file's server labels are its own.
+func c19FileName(ui, fi int) string {
+	if (ui == 4 && fi == 1) || (ui == 5 && fi == 0) {
+		return ""
+	}
+	return fmt.Sprintf("f%d.txt", fi)
+}
+
 // c19MainUploads is the number of uploads the history enumeration draws from;
 // the ladder upload (index 8) is only used by the one-key family.
 const c19MainUploads = 8
@@ -60,7 +69,7 @@ func buildState(st c19State) (*builtState, string) {
 	for _, ui := range st {
 		var parts []upPart
 		for fi, f := range c19Uploads[ui] {
-			parts = append(parts, upPart{"file", fmt.Sprintf("f%d.txt", fi), c19Files[f]})
+			parts = append(parts, upPart{"file", c19FileName(ui, fi), c19Files[f]})
 		}
 		code, body := v.post(parts, -1)
 		if code != 200 {
@@ -71,7 +80,10 @@ func buildState(st c19State) (*builtState, string) {
 		bs.ids = append(bs.ids, id)
 		var prev *refRecord
 		for fi, f := range c19Uploads[ui] {
-			server := map[string]string{"upload": id, "upload-part": fmt.Sprintf("%s/%d", id, fi), "upload-file": fmt.Sprintf("f%d.txt", fi), "by": "user", "upload-time": "T"}
+			server := map[string]string{"upload": id, "upload-part": fmt.Sprintf("%s/%d", id, fi), "by": "user", "upload-time": "T"}
+			if n := c19FileName(ui, fi); n != "" {
+				server["upload-file"] = n // the server labels a file with its name only if it has one
+			}
 			prev = refParseFile(c19Files[f], server, prev, &bs.records, id)
 		}
 	}
@@ -252,6 +264,8 @@ func c19Terms(ids []string) []term {
 	add("missing", ">", "")
 	add("missing", ":", "x")
 	add("by", ":", "user")
+	add("upload-file", ":", "f0.txt")
+	add("upload-file", ">", "")
 	if len(ids) > 0 {
 		add("upload", ":", ids[0])
 		add("upload", ">", ids[0])
